@@ -17,6 +17,9 @@ type c07Case struct {
 	Ops  []string `json:"ops"` // operation names
 	N    int      `json:"n"`   // R1: n undos then n redos after the script
 	Walk bool     `json:"walk"`
+	// earlier Readline calls on the same Shell, each ended by accept-line: their undo states
+	// must not show in the judged call (every call edits a new line)
+	Prior [][]string `json:"prior,omitempty"`
 }
 
 // operation -> keys (emacs)
@@ -101,6 +104,18 @@ func c07Gen(r *rand.Rand, tier string, idx int) any {
 	if c.Mode == "vi" {
 		c.N = 1
 	}
+	if c.Mode == "emacs" && !c.Walk && r.Intn(4) == 0 {
+		for k, nk := 0, 1+r.Intn(2); k < nk; k++ {
+			var ops []string
+			for i, n := 0, 1+r.Intn(5); i < n; i++ {
+				ops = append(ops, pick(r, []string{"word", "char", "killword", "bword", "undo", "space", "bdel"}))
+			}
+			if r.Intn(2) == 0 {
+				ops = append(ops, "histup") // the call is accepted on a history line
+			}
+			c.Prior = append(c.Prior, ops)
+		}
+	}
 	return c
 }
 
@@ -158,12 +173,23 @@ func c07Run(env *fw.Env, raw json.RawMessage) fw.Outcome {
 	}
 	s := sess.New(env.T, env.Scratch, cfg)
 	defer s.Close()
+	for _, ops := range c.Prior {
+		var pp []sess.Step
+		for _, op := range ops {
+			pp = append(pp, sess.Step{W: keys[op], Tag: op})
+		}
+		if pres := s.Call(pp, retExit); !pres.Returned {
+			o.Inc("an earlier call did not return")
+			return o.O
+		}
+		o.Add("judged_calls_after_earlier_calls_on_the_same_shell", 1)
+	}
 	exit := retExit
 	if c.Mode == "vi" {
 		exit = steps("\r")
 	}
 	res := s.Call(plan, exit)
-	ctx := fmt.Sprintf("mode=%s ops=%v n=%d", c.Mode, c.Ops, c.N)
+	ctx := fmt.Sprintf("mode=%s earlier-calls=%v ops=%v n=%d", c.Mode, c.Prior, c.Ops, c.N)
 	if !stdFailures(&o, res, ctx) {
 		o.O.Sample = map[string]any{"ctx": ctx}
 		return o.O
